@@ -24,6 +24,17 @@ thread_local! {
     static SINK: RefCell<Option<Vec<Event>>> = const { RefCell::new(None) };
     static SCRIPT: RefCell<Vec<(String, u32, f64)>> = const { RefCell::new(Vec::new()) };
     static DETAIL: RefCell<usize> = const { RefCell::new(0) };
+    static REFINE_LOG: RefCell<bool> = const { RefCell::new(false) };
+}
+
+/// Log the steps of the KKT solver's iterative refinement (off by default: there are
+/// several refinements per interior-point iteration).
+pub fn set_refine_log(on: bool) {
+    REFINE_LOG.with(|d| *d.borrow_mut() = on);
+}
+
+pub fn refine_log() -> bool {
+    is_on() && REFINE_LOG.with(|d| *d.borrow())
 }
 
 /// Start recording on this thread (discarding anything recorded before).
